@@ -484,4 +484,55 @@ theorem errList_mem_errs (c : Cfg) : ∀ (xs : List Val) (p : TPath) (e : Err),
     · cases h
 end
 
+/-! ## YAML 1.1 octal literals vs the decimal casters -/
+
+theorem foldl_zeros (b : Nat) (k : Nat) : (List.replicate k '0').foldl (fun n c => b * n + digitVal c) 0 = 0 := by
+  induction k with
+  | zero => rfl
+  | succ k ih =>
+    rw [List.replicate_succ, List.foldl_cons]
+    have : b * 0 + digitVal '0' = 0 := by simp [digitVal]
+    rw [this]; exact ih
+
+theorem digitVal_oct (d : Char) (hd : isOctDigit d = true) : digitVal d ≤ 7 := by
+  simp only [isOctDigit, Bool.and_eq_true, decide_eq_true_eq] at hd
+  have h2 : d.toNat ≤ '7'.toNat := hd.2
+  simp only [digitVal]
+  have : '7'.toNat = 55 := by decide
+  have : '0'.toNat = 48 := by decide
+  omega
+
+theorem yamlLegacyOctal_eq_parseInt_of_zeros (k : Nat) (d : Char) (hd : isOctDigit d = true) :
+    yamlLegacyOctal (String.ofList ('0' :: (List.replicate k '0' ++ [d]))) =
+      parseInt (String.ofList ('0' :: (List.replicate k '0' ++ [d]))) := by
+  have hdig : d.isDigit = true := by
+    simp only [isOctDigit, Bool.and_eq_true, decide_eq_true_eq] at hd
+    simp only [Char.isDigit, Bool.and_eq_true, decide_eq_true_eq]
+    exact ⟨hd.1, Nat.le_trans hd.2 (by decide)⟩
+  have h7 := digitVal_oct d hd
+  have hoct : (List.replicate k '0' ++ [d]).all isOctDigit = true := by
+    simp only [List.all_append, List.all_replicate, List.all_cons, List.all_nil, hd, Bool.and_true, Bool.and_eq_true]
+    simp [isOctDigit]
+  have hall : allDigits ('0' :: (List.replicate k '0' ++ [d])) = true := by
+    simp only [allDigits, List.all_cons, List.all_append, List.all_replicate, List.all_nil, hdig, Bool.and_true]
+    simp [Char.isDigit]
+  have hne : (List.replicate k '0' ++ [d]).isEmpty = false := by simp
+  have h8 : (List.replicate k '0' ++ [d]).foldl (fun n c => 8 * n + digitVal c) 0 = digitVal d := by
+    rw [List.foldl_append, foldl_zeros]; simp
+  have h10 : natOfDigits ('0' :: (List.replicate k '0' ++ [d])) = digitVal d := by
+    simp only [natOfDigits, List.foldl_cons]
+    have : 10 * 0 + digitVal '0' = 0 := by simp [digitVal]
+    rw [this, List.foldl_append, foldl_zeros]; simp
+  have hlhs : yamlLegacyOctal (String.ofList ('0' :: (List.replicate k '0' ++ [d]))) = some (digitVal d : Int) := by
+    simp only [yamlLegacyOctal, String.toList_ofList, hne, hoct, h8]
+    simp; omega
+  have hrhs : parseInt (String.ofList ('0' :: (List.replicate k '0' ++ [d]))) = some (digitVal d : Int) := by
+    simp only [parseInt, String.toList_ofList]
+    split
+    · rename_i h; simp at h
+    · rename_i h; simp at h
+    · simp only [hall, h10]
+      simp; omega
+  rw [hlhs, hrhs]
+
 end CV.Interp
